@@ -12,13 +12,16 @@ import (
 	"crypto/cipher"
 	"crypto/des"
 	"crypto/hmac"
+	"crypto/rc4"
 	"crypto/sha1"
 	"crypto/sha256"
 	"crypto/sha512"
 	"encoding/binary"
 	"fmt"
 	"hash"
+	"runtime/debug"
 	"strings"
+	"syscall"
 
 	"golang.org/x/crypto/chacha20"
 	"golang.org/x/crypto/poly1305"
@@ -260,6 +263,9 @@ func headerRewrites(g *hx.Gen, r *hx.Rand, k keys, packets [][]byte, n int) {
 	}
 	for j := 0; j < 6; j++ {
 		want := hx.Pick(r, lenVals)
+		if want > 2*maxPacket && !r.Chance(1, 8) { // the astronomically large values only now and then
+			want = uint32(r.Range(0, 64))
+		}
 		s := clone(stream)
 		var w [4]byte
 		binary.BigEndian.PutUint32(w[:], want^plainLen^orig)
@@ -413,11 +419,129 @@ func craftedCBC(g *hx.Gen, r *hx.Rand) {
 	}
 }
 
+// header returns the first bytes of a stream that the reader of mode k decodes to packet_length l and
+// padding_length pad (computed with the standard library from the known key material, not with the package):
+// 5 bytes for the stream modes and `none`, 4 (+1 random) for GCM / chacha20-poly1305, one cipher block for CBC
+// (the rest of the block is random).
+func header(r *hx.Rand, k keys, l uint32, pad byte) []byte {
+	h := make([]byte, 5)
+	binary.BigEndian.PutUint32(h, l)
+	h[4] = pad
+	etm := strings.HasSuffix(k.m, "-etm@openssh.com")
+	switch {
+	case k.c == "none":
+	case strings.HasSuffix(k.c, "-ctr"):
+		b, _ := aes.NewCipher(k.key)
+		ks := make([]byte, 5)
+		cipher.NewCTR(b, k.iv).XORKeyStream(ks, ks)
+		if etm {
+			h[4] ^= ks[0]
+		} else {
+			for i := range h {
+				h[i] ^= ks[i]
+			}
+		}
+	case strings.HasPrefix(k.c, "arcfour"):
+		c, _ := rc4.NewCipher(k.key)
+		skip := 0
+		if k.c != "arcfour" {
+			skip = 1536
+		}
+		ks := make([]byte, skip+5)
+		c.XORKeyStream(ks, ks)
+		ks = ks[skip:]
+		if etm {
+			h[4] ^= ks[0]
+		} else {
+			for i := range h {
+				h[i] ^= ks[i]
+			}
+		}
+	case strings.Contains(k.c, "gcm"):
+		h[4] = byte(r.U32())
+	case strings.HasPrefix(k.c, "chacha20"):
+		nonce := make([]byte, 12)
+		binary.BigEndian.PutUint32(nonce[8:], k.seq)
+		ls, _ := chacha20.NewUnauthenticatedCipher(k.key[32:], nonce)
+		ls.XORKeyStream(h[:4], h[:4])
+		h[4] = byte(r.U32())
+	case strings.Contains(k.c, "cbc"):
+		var blk cipher.Block
+		if k.c == "aes128-cbc" {
+			blk, _ = aes.NewCipher(k.key)
+		} else {
+			blk, _ = des.NewTripleDESCipher(k.key)
+		}
+		first := append(h, r.Bytes(blk.BlockSize()-5)...)
+		cipher.NewCBCEncrypter(blk, k.iv).CryptBlocks(first, first)
+		return first
+	}
+	return h
+}
+
+var macSizes = map[string]int{"hmac-sha2-512-etm@openssh.com": 64, "hmac-sha2-256-etm@openssh.com": 32, "hmac-sha2-512": 64, "hmac-sha2-256": 32, "hmac-sha1": 20, "hmac-sha1-96": 12, "-": 0}
+
+// craftedHeaders: for a mode, streams whose (decrypted) packet_length takes every value 0..47 (every residue
+// modulo 8 and 16, around the minimum sizes), values around 2^8 / 2^16, every value maxPacket-20 .. maxPacket+64,
+// and a few beyond; padding_length 4 and boundary values; followed by exactly the bytes the header announces
+// (random: the MAC will not verify), or by too few.  Nothing here costs more than a few hundred bytes of input:
+// the large lengths are followed by a short tail, so a reader that still checks answers `len` where one that
+// lost a check answers `eof` (or panics in CryptBlocks on a length that is not a whole number of blocks).
+func craftedHeaders(g *hx.Gen, r *hx.Rand, c, m string) {
+	var ls []uint32
+	for l := uint32(0); l < 48; l++ {
+		ls = append(ls, l)
+	}
+	ls = append(ls, 60, 68, 72, 100, 252, 255, 256, 260, 264, 65532, 65535, 65536, 65540, 65544)
+	for l := uint32(maxPacket - 20); l <= maxPacket+64; l++ {
+		ls = append(ls, l)
+	}
+	ls = append(ls, maxPacket+65, maxPacket+72, maxPacket+80, 2*maxPacket, 2*maxPacket+4, 2*maxPacket+12)
+	for _, l := range ls {
+		k := newKeys(r, c, m)
+		pad := byte(4)
+		if r.Chance(1, 4) {
+			pad = hx.Pick(r, padVals)
+		}
+		h := header(r, k, l, pad)
+		tag := macSizes[m]
+		if strings.Contains(c, "gcm") || strings.HasPrefix(c, "chacha20") {
+			tag = 16
+		}
+		var tail int
+		if l <= 70000 && (l < 300 || r.Chance(1, 8)) {
+			// as many bytes as the header announces (incl. MAC / tag), sometimes one less or a few more
+			need := 4 + int(l) + tag - len(h)
+			if !strings.Contains(c, "gcm") && !strings.HasPrefix(c, "chacha20") && !strings.Contains(c, "cbc") {
+				need = 4 + int(l) + tag - 5 // stream modes: length counts the padding-length byte already sent
+			}
+			if need < 0 {
+				need = 0
+			}
+			tail = need + r.PickInt(0, 0, 0, 2, -1)
+			if tail < 0 {
+				tail = 0
+			}
+		} else {
+			tail = r.Intn(24)
+		}
+		s := append(h, r.Bytes(tail)...)
+		emit(g, k, 2, s, "crafted-header")
+	}
+}
+
 func gen(g *hx.Gen) {
 	r := g.R
 	pairs := allPairs()
 	craftedAEAD(g, r)
 	craftedCBC(g, r)
+	// crafted headers: every CBC pair and one pair of every other family always, the rest rotating in the quick tier
+	for _, pr := range allPairs() {
+		always := strings.Contains(pr[0], "cbc") || pr[1] == "-" || (pr[0] == "aes128-ctr" && (pr[1] == "hmac-sha2-256" || pr[1] == "hmac-sha2-256-etm@openssh.com")) || pr[0] == "arcfour128" && pr[1] == "hmac-sha1"
+		if always || g.Thorough() || r.Chance(1, 5) {
+			craftedHeaders(g, r, pr[0], pr[1])
+		}
+	}
 
 	// every mode: one stream with every bit flip + every truncation (rotating subset in the quick tier),
 	// and lighter tampering of further streams
@@ -448,10 +572,18 @@ func gen(g *hx.Gen) {
 		pr := hx.Pick(r, pairs)
 		k := newKeys(r, pr[0], pr[1])
 		s := r.Bytes(r.PickInt(0, 1, 3, 4, 5, 7, 8, 15, 16, 17, 20, 36, 64, r.Range(0, 300), r.Range(0, 300)))
-		if len(s) >= 4 && r.Chance(1, 3) { // a plausible small length in the first four bytes (clear-length modes take it as is)
-			binary.BigEndian.PutUint32(s, uint32(r.Range(0, 80)))
+		if r.Chance(19, 20) {
+			// random bytes behind a header that decodes to a small / boundary length: the stream gets past the
+			// length checks (a uniformly random 32-bit length is above maxPacket with probability 0.99994)
+			l := uint32(r.Range(0, 300))
+			if r.Chance(1, 6) {
+				l = maxPacket - 8 + uint32(r.Intn(24))
+			}
+			s = append(header(r, k, l, byte(r.U32())), s...)
+			emit(g, k, 3, s, "random-stream-small-length")
+		} else {
+			emit(g, k, 3, s, "random-stream")
 		}
-		emit(g, k, 3, s, "random-stream")
 		if i%3 == 0 {
 			noneStructured(g, r, false)
 		}
@@ -460,4 +592,12 @@ func gen(g *hx.Gen) {
 
 // Serial: a reader that lost its length check allocates up to 4 GiB per call; one at a time keeps the process alive so
 // the disagreement (eof instead of len) is reported instead of an out-of-memory kill.
-func main() { hx.Main(hx.Harness{Gen: gen, Exec: exec, Serial: true}) }
+func main() {
+	// backstop: a reader that lost a bound may try to allocate without limit; cap the address space so that such a
+	// process dies at once instead of driving the machine into swap (one legitimate 4 GiB request still fits).
+	// The soft memory limit makes the collector release one oversized buffer before the next is requested.
+	lim := syscall.Rlimit{Cur: 14 << 30, Max: 14 << 30}
+	syscall.Setrlimit(syscall.RLIMIT_AS, &lim)
+	debug.SetMemoryLimit(512 << 20)
+	hx.Main(hx.Harness{Gen: gen, Exec: exec, Serial: true})
+}
